@@ -266,8 +266,8 @@ func (x *Exec) frameObligations(fr *Frame, out *State, spec *FuncSpec, sfx strin
 	}
 	sort.Strings(keys)
 	for _, k := range keys {
-		if wholeOK(k) {
-			continue
+		if wholeOK(k) || k == "ghost:rangevisited" || k == "ghost:rangestart" {
+			continue // the iteration ghosts are the verifier's own bookkeeping
 		}
 		if onlyNewWrites(x.written[k]) {
 			continue // written only inside objects this function allocated itself
